@@ -21,6 +21,11 @@ def to_tree(test, classify=None, norm_fn=None):
         return ("and" if isinstance(test.op, ast.And) else "or", [to_tree(v, classify, nf) for v in test.values])
     if isinstance(test, ast.UnaryOp) and isinstance(test.op, ast.Not):
         return ("not", to_tree(test.operand, classify, nf))
+    if isinstance(test, ast.IfExp):
+        c = to_tree(test.test, classify, nf)
+        return ("or", [("and", [c, to_tree(test.body, classify, nf)]), ("and", [("not", c), to_tree(test.orelse, classify, nf)])])
+    if isinstance(test, ast.Constant) and isinstance(test.value, bool):
+        return ("const", test.value)
     neg = False
     leaf = test
     if isinstance(test, ast.Compare) and len(test.ops) == 1 and type(test.ops[0]) in _FLIP:
@@ -37,6 +42,8 @@ def tree_vars(tree, acc=None):
     acc = set() if acc is None else acc
     if tree[0] == "var":
         acc.add(tree[1])
+    elif tree[0] == "const":
+        pass
     elif tree[0] == "not":
         tree_vars(tree[1], acc)
     else:
@@ -49,6 +56,8 @@ def eval_tree(tree, assign):
     k = tree[0]
     if k == "var":
         return assign[tree[1]]
+    if k == "const":
+        return tree[1]
     if k == "not":
         return not eval_tree(tree[1], assign)
     if k == "and":
@@ -98,15 +107,17 @@ def must_cross(g, target, edge_ok, start=None):
     return not reach_avoiding(g, start or g.entry, target, edge_ok)
 
 
-def branch_edge_entails(classify, goal, goal_vars=(), norm_fn=None):
-    """edge predicate for must_cross: the edge is the true/false edge of a branch whose outcome forces `goal`."""
+def branch_edge_entails(classify, goal, goal_vars=(), norm_fn=None, with_node=False):
+    """edge predicate for must_cross: the edge is the true/false edge of a branch whose outcome forces `goal`.
+    with_node: classify is called as classify(leaf, branch_node) (for classifiers that expand the leaf in its context)."""
     def ok(src, kind, dst):
         if src.kind != "branch" or kind not in ("true", "false"):
             return False
-        return entails(src.ast.test, kind == "true", classify, goal, goal_vars, norm_fn)
+        cl = (lambda lf, src=src: classify(lf, src)) if with_node else classify
+        return entails(src.ast.test, kind == "true", cl, goal, goal_vars, norm_fn)
     return ok
 
 
-def known(g, node, classify, goal, goal_vars=(), norm_fn=None):
+def known(g, node, classify, goal, goal_vars=(), norm_fn=None, with_node=False, start=None):
     """path form of `goal is known at node`: every entry->node path crosses a branch edge that forces goal."""
-    return must_cross(g, node, branch_edge_entails(classify, goal, goal_vars, norm_fn))
+    return must_cross(g, node, branch_edge_entails(classify, goal, goal_vars, norm_fn, with_node), start)
